@@ -17,7 +17,7 @@ def near(a, b, tol=TOL):
 
 def replay_of(tr):
     return {"config": {k: v for k, v in tr.cfg.items()}, "instruments": [s["id"] for s in tr.S["stocks"]] + [f["id"] for f in tr.S["futures"]],
-            "range": "%s..%s" % (tr.S["start"], tr.S["end"])}
+            "range": "%s..%s" % (tr.S["start"], tr.S["end"]), "run_seed": getattr(tr, "run_seed", None), "run_index": getattr(tr, "run_index", None)}
 
 
 def iter_obs(tr):
@@ -49,6 +49,13 @@ def c02_monitor(ctx, tr, ix):
                 ghost += e["args"][1]
             elif e["api"] == "withdraw" and e["args"][0] == "FUTURE":
                 ghost -= e["args"][1]
+        if kind == "CALL" and e["exc"] is not None and e["api"] in ("deposit", "withdraw", "finance", "repay"):
+            # a cash API that raised must not have booked anything
+            b0, b1 = (e.get("before") or {}).get("FUTURE"), (e.get("after") or {}).get("FUTURE")
+            if b0 is not None and b1 is not None and (b0["total_cash"] != b1["total_cash"] or b0["pending"] != b1["pending"]):
+                ctx.witness("C02.1", {"kind": "failed_cash_call_booked", "api": e["api"]}, "%s%r raised %s but the FUTURE account's cash went from %r to %r"
+                            % (e["api"], e["args"], e["exc"], b0["total_cash"], b1["total_cash"]), rp)
+                ghost += (b1["total_cash"] + sum(x for _, x in b1["pending"])) - (b0["total_cash"] + sum(x for _, x in b0["pending"]))
         if kind == "TRADE" and e["trade"]["book"] in ix.fut and e["order"] is not None:
             # (the close-out trade of an expiring contract is published inside settlement: its value went to cash there)
             t = e["trade"]
@@ -214,7 +221,9 @@ def c03_monitor(ctx, tr, ix):
                 # daily_pnl is not in the snapshot's obs: recompute from the account's parts exposed there
                 dp = e.get("daily_pnl", {}).get(t)
                 if dp is not None and dp == dp:
-                    delist_today = t == "STOCK" and any(s["delisted"] is not None and nxt8 >= B.d8(s["delisted"]) and B.d8(s["delisted"]) > today8 for s in S["stocks"])
+                    # a delisted holding was paid out at this settlement (also a holding re-created after the delisting by a dividend reinvestment)
+                    delist_today = t == "STOCK" and any(s["delisted"] is not None and nxt8 >= B.d8(s["delisted"]) and
+                                                        (B.d8(s["delisted"]) > today8 or any(h["id"] == s["id"] and h["long"]["qty"] == 0 for h in a["holdings"])) for s in S["stocks"])
                     liquidated = (not a["holdings"]) and a["total_cash"] == 0
                     if not near(dp, want, 1e-6) and abs(dp - want) > 1e-4 and not liquidated:
                         if sys_fee[t] > 0 and abs(dp - (want - sys_fee[t])) <= 1e-4 + 1e-9 * abs(want):
